@@ -21,3 +21,8 @@ echo "== checks against the mutant"
 for c in $CHECKS; do VERIF_DEV_SKIP_PROOF=1 ./check $c --tier quick 2>&1 | grep -E "VIOLATION|FAIL|KNOWN" | head -4 | cut -c1-160; done
 git -C /repo checkout -q -- .
 echo "== undone: $(git -C /repo status --short | wc -l) modified files in /repo"
+# leave clean binaries behind (the harness and engine were last built from the mutated tree)
+python3 -c "
+import sys; sys.path.insert(0,'/verif')
+from vlib import core
+core.cargo_harness('release'); core.cargo_harness('checked'); core.cargo_engine()" 2>/dev/null
